@@ -26,6 +26,10 @@ pub enum Op {
     Remove(usize, String),
     Inc(usize, String),
     Snapshot(usize),
+    /// create-user in database d (stores the key $$user_u<d>)
+    CreateUser(usize),
+    /// set-permissions for that user (stores $$permission_$u<d>)
+    SetPerm(usize),
 }
 
 #[derive(Clone, Debug)]
@@ -54,11 +58,13 @@ fn gen_ops(r: &mut Rng, n: usize, created: &mut BTreeSet<usize>) -> Vec<Op> {
             continue;
         }
         let k = format!("k{}", r.below(3));
-        ops.push(match r.below(10) {
+        ops.push(match r.below(12) {
             0..=5 => Op::Set(d, k, r.below(VALUES.len())),
             6..=7 => Op::Remove(d, k),
             8 => Op::Inc(d, "n".into()),
-            _ => Op::Snapshot(d),
+            9 => Op::Snapshot(d),
+            10 => Op::CreateUser(d),
+            _ => Op::SetPerm(d),
         });
     }
     ops
@@ -136,6 +142,8 @@ fn render(op: &Op) -> (usize, String) {
         Op::Remove(d, k) => (*d, format!("remove {}", k)),
         Op::Inc(d, k) => (*d, format!("increment {} {}", k, if *d == 2 { 0 } else { 2 })),
         Op::Snapshot(d) => (*d, format!("snapshot false {}", DBS[*d].0)),
+        Op::CreateUser(d) => (*d, format!("create-user u{} pw{}", d, d)),
+        Op::SetPerm(d) => (*d, format!("set-permissions u{} rw k*|r n", d)),
     }
 }
 
@@ -262,6 +270,12 @@ pub fn run_scenario(sc: &Scenario, seed0: u64, v: &Verdicts, st: &Mutex<Stats>) 
             match op {
                 Op::Set(d, k, _) | Op::Remove(d, k) | Op::Inc(d, k) => {
                     last_phase.insert((DBS[*d].0.to_string(), k.clone()), phase);
+                }
+                Op::CreateUser(d) => {
+                    last_phase.insert((DBS[*d].0.to_string(), format!("$$user_u{}", d)), phase);
+                }
+                Op::SetPerm(d) => {
+                    last_phase.insert((DBS[*d].0.to_string(), format!("$$permission_$u{}", d)), phase);
                 }
                 _ => {}
             }
